@@ -325,6 +325,29 @@ def run_case(ctx, rng, job):
                 ctx.violation('declaration-from-provided-not-flattened-in-place', {'form': label, 'got': nm(before_), 'expected': nm(src_list)})
             if not (len(now) == len(before_) and all(a is b for a, b in zip(now, before_))):
                 ctx.violation('declaration-follows-a-later-class-declaration', {'form': label, 'was': nm(before_), 'now': nm(now)})
+    # sums and differences of a *class's* specification are values of their own: a later declaration on the class does not
+    # show in them (nor in anything they were handed to), even when the operation removed or added nothing
+    if len(ifs) >= 3:
+        ra, rb_, rc = rng.sample(ifs, 3)
+        KL = type('KLive', (), {})
+        classImplements(KL, ra)
+        spec = implementedBy(KL)
+        unrelated = [i for i in ifs if not ext(ra, i) and not ext(i, ra)]
+        if unrelated:
+            d_sub = spec - unrelated[0]                 # removes nothing
+            d_add = spec + Declaration()                # adds nothing
+            holder = type('KHolder', (), {})()
+            directlyProvides(holder, d_sub)
+            was = (list(d_sub), list(d_add), list(directlyProvidedBy(holder)))
+            late = [i for i in ifs if not any(i is x for x in was[0])]
+            if late:
+                classImplements(KL, late[0])
+                now = (list(d_sub), list(d_add), list(directlyProvidedBy(holder)))
+                ctx.ev(3)
+                ctx.count('results_of_operations_on_a_live_class_specification')
+                for label, w_, n_ in zip(('A - B (nothing removed)', 'A + empty', 'what the difference was handed to'), was, now):
+                    if len(w_) != len(n_) or any(a is not b for a, b in zip(w_, n_)):
+                        ctx.violation('result-follows-a-later-declaration-on-the-operand', {'what': label, 'was': nm(w_), 'now': nm(n_)})
     # interfaces handed over through transparent proxies (objects that forward everything and say they are of the
     # wrapped interface's class, as security and location proxies do): one interface each, wherever an interface goes
     if len(ifs) >= 3:
